@@ -43,6 +43,19 @@ func parseProtectedHeaders(encoded string) (*jwsProtectedHeader, error) {
 			Msg: fmt.Sprintf("jws envelope protected header can't be decoded: %s", err.Error())}
 	}
 
+	// encoding/json matches the fields of jwsProtectedHeader case-insensitively,
+	// whereas header names are case-sensitive. A header that differs from a
+	// specification-defined header only in case would be taken for that header
+	// here but not by the JWT library that verifies the signature.
+	for key := range protected.ExtendedAttributes {
+		for _, headerKey := range headerKeys {
+			if key != headerKey && strings.EqualFold(key, headerKey) {
+				return nil, &signature.InvalidSignatureError{
+					Msg: fmt.Sprintf("jws envelope protected header %q is not allowed: it differs from %q only in case", key, headerKey)}
+			}
+		}
+	}
+
 	// delete attributes that are already defined in jwsProtectedHeader.
 	for _, headerKey := range headerKeys {
 		delete(protected.ExtendedAttributes, headerKey)
